@@ -74,10 +74,11 @@ Poll(stop) ==
     /\ wchk' = [WGood EXCEPT
                   \* every poll happens inside an iteration of a known polled loop
                   !.hooked  = cur \in Sites,
-                  \* C13 rate, the other half: ONCE per I iterations - the first iteration of a loop
-                  \* polls, and after that exactly every I-th, so that polls track the work done
+                  \* C13 rate, the other half: ONCE per I iterations - after its first poll a loop polls
+                  \* exactly every I-th iteration, so that polls track the work done (at which of its first
+                  \* I iterations a loop polls for the first time is the implementation's choice)
                   !.rate    = cur \in Sites =>
-                                 IF polled[cur] THEN since[cur] = I ELSE since[cur] = 1,
+                                 IF polled[cur] THEN since[cur] = I ELSE since[cur] <= I,
                   \* at most I + 1 further polls: one per copy instruction met during the at most I
                   \* main-loop iterations left, plus the main loop's own
                   !.latency = stopSeen => afterPolls + 1 <= I + 1,
